@@ -7,7 +7,7 @@ from checks import gcm_common as G
 PID = "C02"
 RULE = ("same generated cases as C01 (joint degree sequence x motif configuration x algorithm x path x RNG), motif "
         "templates weighted to 1 edge (bare and listed), exactly 2 edges and k edges with per-edge names; "
-        "non-trivial = some motif with >= 2 edges is instantiated and >= 2 motif instances exist; "
+        "rows are matched to callback returns as multisets per motif id (row order, adjacency and pair orientation are free); non-trivial = some motif with >= 2 edges is instantiated and >= 2 motif instances exist; "
         "distinct = distinct canonical JSON")
 ASSUMPTIONS = ["a bare-edge callback (returning one (u,v) tuple) is paired with a naming callback returning a bare "
                "string, the convention of the suite's own custom-motif fixture; only the custom generator accepts it"]
